@@ -282,10 +282,38 @@ def core(fx, rep, value_ty, evaluator, err_ty_prefix):
         rep.violation('floor', 'R1/evaluator-negation', ev.loc(), 'anchor lost: no integer negation found in the evaluator')
 
 
+RESOLVE6 = ('cel_interpreter::objects::Value::resolve', 'cel_interpreter::context::Context::resolve')
+
+
 def run(fx, rep):
     from .report import producer_rules
     producer_rules(fx, rep, 'producer rule: the parser builds arithmetic and unary-minus nodes from their own children with the operator the source shows, and never folds or regroups them (C04 R3/R5/R7/R9)', [('c04', 'C04', '^(R3/visit_calc/|R3/visit_Negate/|R5/|R7/visit_(calc|Negate)/|R9/|R3/find_operator/|R3/token-literal/)')], 15)
     core(fx, rep, 'cel_interpreter::objects::Value', 'cel_interpreter::objects::Value::resolve', 'cel_interpreter::ExecutionError')
+    # ---------------- R6 operand kinds of unary minus
+    rep.rule('R6', 'unary minus has arms for int and double only: a uint (or anything else) is an error, not a coercion')
+    from .evalmodel import EvalModel
+    m6 = EvalModel(fx)
+    if '-_' not in m6.arms():
+        raise F.Lost('NEGATE arm not found')
+    reg6 = m6.b.reachable_from([m6.arms()['-_']['entry']]) - m6.b.reachable_from([m6.arms()['-_']['miss']])
+    vnames = [v['name'] for v in fx.adt('cel_interpreter::objects::Value')['variants']]
+    kinds = None
+    for bi in sorted(reg6):
+        blk = m6.b.blocks[bi]
+        t = blk['term']
+        if t['k'] != 'SwitchInt':
+            continue
+        dl = F.op_local(t['discr'])
+        for st in blk['stmts']:
+            if st['k'] == 'Assign' and st['rv']['k'] == 'Discriminant' and not st['place'].get('p') and st['place']['l'] == dl:
+                ts = m6.pv.of_operand({'k': 'Copy', 'place': st['rv']['place']})
+                pty = m6.b.locals[st['rv']['place']['l']]['ty'] if not st['rv']['place'].get('p') else ''
+                if pty == 'cel_interpreter::objects::Value' and any(F.term_contains(x, lambda y: y[0] == 'call' and y[1] in RESOLVE6) for x in ts):
+                    kinds = sorted(vnames[int(v)] for v, _ in t['arms'] if int(v) < len(vnames))
+        if kinds is not None:
+            break
+    rep.check(kinds == ['Float', 'Int'], 'R6', 'neg/operand-kinds', m6.arms()['-_']['loc'], 'arms for Int and Float, everything else UnsupportedUnaryOperator',
+              'unary minus has own arms for %s, expected Int and Float only: -(5u) must be an error, not an int' % kinds)
     # ---------------- R5 every successful result comes out of an operand-pair arm
     rep.rule('R5', 'a successful arithmetic result is computed from both operands inside a same-kind arm; no operand is handed back as the result')
     for tr in ('Add', 'Sub', 'Mul', 'Div', 'Rem'):
